@@ -7,6 +7,7 @@ package c10
 import (
 	"bytes"
 	"encoding/binary"
+	"encoding/hex"
 	"fmt"
 	"sort"
 	"strings"
@@ -89,9 +90,51 @@ type kase struct {
 	history []string
 	dead    bool
 	// indexer partition (index.go)
-	idx      []refBlock // committed index entries
-	pendIdx  []refBlock // indexed on the store object, not yet committed
-	blockSeq int
+	idx          []refBlock // committed index entries
+	pendIdx      []refBlock // indexed on the store object, not yet committed
+	blockSeq     int
+	abandonedIdx []refBlock // index entries erased by a Rollback
+	histV        *uint64    // set while a historical (NewReadOnly(v)) read is being checked
+}
+
+const sigRolledBack = "C10:rolled-back-entry-visible-in-history"
+
+// rolledBack: (k, val) — or, with present=false, the absence of k — is what a write erased by a Rollback
+// would show to a reader at version v if it came back
+func (c *kase) rolledBack(k, val []byte, present bool, v uint64) bool {
+	for _, e := range c.ref.abandoned[string(k)] {
+		if e.v <= v && ((present && !e.del && bytes.Equal(e.val, val)) || (!present && e.del)) {
+			return true
+		}
+	}
+	return false
+}
+
+// histSig refines the signature of a mismatch of a historical read: does the answer contain an entry that was
+// rolled back (and the versioned map, i.e. the history after rollback + recommit, does not)?
+func (c *kase) histSig(def string, got, exp []kv, keys ...[]byte) string {
+	if c.histV == nil {
+		return def
+	}
+	has := func(l []kv, e kv, withVal bool) bool {
+		for _, x := range l {
+			if bytes.Equal(x.k, e.k) && (!withVal || bytes.Equal(x.v, e.v)) {
+				return true
+			}
+		}
+		return false
+	}
+	for _, g := range got {
+		if !has(exp, g, true) && c.rolledBack(g.k, g.v, true, *c.histV) {
+			return sigRolledBack
+		}
+	}
+	for _, e := range exp {
+		if !has(got, e, false) && c.rolledBack(e.k, nil, false, *c.histV) {
+			return sigRolledBack
+		}
+	}
+	return def
 }
 
 func newCase(o *drv.Out, name string, keys, pfxs [][]byte) *kase {
@@ -187,7 +230,15 @@ func (c *kase) checkGet(what string, line, got string, exp *[]byte, panicked boo
 		want = "v " + drv.Hex(*exp)
 	}
 	if got != want {
-		c.fail("C10:get-differs-from-versioned-map", fmt.Sprintf("%s: %s answered %q, versioned map says %q", what, line, got, want))
+		var g, e []kv
+		if got != "v -" {
+			bz, _ := hex.DecodeString(strings.TrimPrefix(got, "v "))
+			g = []kv{{k, bz}}
+		}
+		if exp != nil {
+			e = []kv{{k, *exp}}
+		}
+		c.fail(c.histSig("C10:get-differs-from-versioned-map", g, e), fmt.Sprintf("%s: %s answered %q, versioned map says %q", what, line, got, want))
 	}
 	c.o.Count("oracle:get-checked")
 }
@@ -219,16 +270,16 @@ func (c *kase) checkIter(what string, line string, got []kv, exp []kv, panicked 
 	}
 	// complete and exact
 	if len(got) != len(exp) {
-		c.fail("C10:iter-incomplete-or-extra", fmt.Sprintf("%s: %s yields %d entries, versioned map has %d: got %s want %s", what, line, len(got), len(exp), showIter(got), showIter(exp)))
+		c.fail(c.histSig("C10:iter-incomplete-or-extra", got, exp), fmt.Sprintf("%s: %s yields %d entries, versioned map has %d: got %s want %s", what, line, len(got), len(exp), showIter(got), showIter(exp)))
 		return
 	}
 	for i := range got {
 		if !bytes.Equal(got[i].k, exp[i].k) {
-			c.fail("C10:iter-incomplete-or-extra", fmt.Sprintf("%s: %s entry %d is %x, versioned map has %x", what, line, i, got[i].k, exp[i].k))
+			c.fail(c.histSig("C10:iter-incomplete-or-extra", got, exp), fmt.Sprintf("%s: %s entry %d is %x, versioned map has %x", what, line, i, got[i].k, exp[i].k))
 			return
 		}
 		if !bytes.Equal(got[i].v, exp[i].v) {
-			c.fail("C10:iter-wrong-value", fmt.Sprintf("%s: %s key %x has value %x, versioned map has %x", what, line, got[i].k, got[i].v, exp[i].v))
+			c.fail(c.histSig("C10:iter-wrong-value", got, exp), fmt.Sprintf("%s: %s key %x has value %x, versioned map has %x", what, line, got[i].k, got[i].v, exp[i].v))
 			return
 		}
 	}
@@ -435,7 +486,9 @@ func (c *kase) readAt(v uint64, k []byte) {
 	ro.Discard()
 	c.op(line, res)
 	exp, _ := c.ref.get(nil, c.ref.hist, v, k)
+	c.histV = &v
 	c.checkGet("NewReadOnly.Get", line, res, exp, p, k, false)
+	c.histV = nil
 	c.o.Nontrivial(fmt.Sprintf("readat back=%d hit=%v nver=%d", int64(c.ref.version)-int64(v), exp != nil, c.ref.nver(k)))
 }
 
@@ -449,7 +502,9 @@ func (c *kase) iterAt(v uint64, p []byte, rev bool) []kv {
 	res, out, pn := realIter(ro, p, rev)
 	ro.Discard()
 	c.op(line, res)
+	c.histV = &v
 	c.checkIter("NewReadOnly.Iterator", line, out, c.ref.iter(nil, c.ref.hist, v, p, rev), pn, p, rev)
+	c.histV = nil
 	c.o.Nontrivial(fmt.Sprintf("iterat back=%d rev=%v n=%d", int64(c.ref.version)-int64(v), rev, len(out)))
 	return out
 }
@@ -494,6 +549,122 @@ func (c *kase) compact() {
 	}
 	c.o.Count("db:flush+compact")
 	c.op("version", fmt.Sprintf("ok %d", c.base.Version()))
+}
+
+// flushOnly moves the memtable into an sstable of its own WITHOUT compacting: what was written since the last
+// flush (e.g. the physical deletions of a Rollback) then sits in a different sstable from what it covers.
+func (c *kase) flushOnly() {
+	_ = c.base.DB().Flush()
+	c.o.Count("db:flush-only")
+	c.op("version", fmt.Sprintf("ok %d", c.base.Version()))
+}
+
+// block commits one block the way the node does: a few state writes, QC + block indexed, Commit. Keys in
+// `avoid` are not written. Returns the keys it set or deleted.
+func (c *kase) block(avoid map[string]bool) (touched [][]byte) {
+	r := c.o.Rng
+	for i, n := 0, 1+r.Intn(5); i < n; i++ {
+		k := c.rkey()
+		if avoid[string(k)] {
+			continue
+		}
+		if r.Intn(4) == 0 {
+			c.del(k)
+		} else {
+			c.set(k, c.rval())
+		}
+		touched = append(touched, k)
+	}
+	if r.Intn(5) > 0 {
+		c.indexPending()
+	}
+	c.commit()
+	return
+}
+
+// rewind is the offline-rollback interleaving: some heights committed and flushed into an sstable —
+// Rollback(t) — flush again, no compaction (the rollback's deletions now sit in their own sstable) — the
+// abandoned heights re-committed with a DIFFERENT key set (some keys of the abandoned blocks are not written
+// again) and different blocks — then every version, including the re-committed ones, is read back through
+// NewReadOnly: point reads of the keys the abandoned blocks wrote, full and prefix scans in both directions,
+// blocks by height and by hash (the abandoned hashes too), QCs and txs by height. The history after
+// rollback + recommit is the new history: nothing of the abandoned heights may be visible at any version.
+func (c *kase) rewind() {
+	if len(c.stack) != 0 || len(c.held) != 0 || len(c.copies) != 0 || c.dead {
+		return
+	}
+	r := c.o.Rng
+	c.o.Count("scenario:flush-rollback-flush-recommit")
+	for i, n := 0, 2+r.Intn(3); i < n; i++ {
+		c.block(nil)
+	}
+	c.flushOnly()
+	tip := c.ref.version
+	k := 1 + r.Intn(min(3, int(tip)-1))
+	t := tip - uint64(k)
+	// what the heights to be abandoned wrote
+	var lost [][]byte
+	for key, vs := range c.ref.hist {
+		for _, e := range vs {
+			if e.v > t {
+				lost = append(lost, []byte(key))
+				break
+			}
+		}
+	}
+	sort.Slice(lost, func(i, j int) bool { return bytes.Compare(lost[i], lost[j]) < 0 })
+	var lostBlocks []refBlock
+	for _, e := range c.idx {
+		if e.ver > t && e.hasBlk {
+			lostBlocks = append(lostBlocks, e)
+		}
+	}
+	c.rollback(t)
+	if c.dead || c.ref.version != t {
+		return
+	}
+	c.flushOnly()
+	// recommit: never rewrite a (non-empty) random part of what the abandoned heights wrote
+	avoid := map[string]bool{}
+	for i, key := range lost {
+		if i == 0 || r.Intn(2) == 0 {
+			avoid[string(key)] = true
+		}
+	}
+	for i := 0; i < k+1 && !c.dead; i++ {
+		c.block(avoid)
+		if r.Intn(3) == 0 {
+			c.flushOnly()
+		}
+	}
+	if c.dead {
+		return
+	}
+	// read everything back, at every version
+	for v := uint64(1); v <= c.ref.version; v++ {
+		for _, key := range lost {
+			c.readAt(v, key)
+		}
+		c.iterAt(v, nil, false)
+		c.iterAt(v, c.rpfx(), r.Intn(2) == 0)
+		vw := fmt.Sprintf("ro:%d", v)
+		for h := t; h <= c.ref.version; h++ {
+			c.getBlockByHeight(vw, h, false)
+			c.getQC(vw, h)
+			c.getTxs(vw, h)
+		}
+		for _, b := range lostBlocks {
+			c.getBlockByHash(vw, b.hash)
+			for _, tx := range b.txs {
+				c.getTx(vw, tx)
+			}
+		}
+	}
+	for _, b := range lostBlocks {
+		c.getBlockByHash("live", b.hash)
+		c.getBlockByHeight("live", b.h, false)
+	}
+	c.checkHistory()
 }
 
 // checkHistory re-reads every recorded committed version through NewReadOnly (now the HSS path for all
@@ -675,7 +846,18 @@ func (c *kase) rver() uint64 {
 // run executes `n` random ops.
 func (c *kase) run(n int, malformed bool) {
 	r := c.o.Rng
+	rewindAt := -1
+	if r.Intn(3) == 0 {
+		rewindAt = r.Intn(n/2 + 1)
+	}
 	for i := 0; i < n && !c.dead; i++ {
+		if i == rewindAt {
+			// close what is open, then the rollback interleaving
+			for len(c.stack) > 0 {
+				c.pop()
+			}
+			c.rewind()
+		}
 		x := r.Intn(1000)
 		switch {
 		case x < 270:
@@ -759,6 +941,10 @@ func (c *kase) run(n int, malformed bool) {
 			c.compact()
 		default:
 			if len(c.stack) == 0 && len(c.held) == 0 && len(c.copies) == 0 {
+				if r.Intn(3) == 0 {
+					c.rewind()
+					continue
+				}
 				t := c.rver()
 				c.rollback(t)
 				c.checkHistory()
@@ -803,8 +989,8 @@ func witness(o *drv.Out) {
 	c.iterAt(1, K, false)
 	c.iterAt(1, K, true)
 	o.Extra["wfkeys_witness"] = map[string]any{
-		"keys":        []string{drv.Hex(K), drv.Hex(B), drv.Hex(C)},
-		"observed":    showIter(out),
+		"keys":         []string{drv.Hex(K), drv.Hex(B), drv.Hex(C)},
+		"observed":     showIter(out),
 		"versionedmap": showIter(exp),
 	}
 	if len(out) != len(exp) {
